@@ -37,7 +37,10 @@ def main():
     ap.add_argument("--prop"); ap.add_argument("--id"); ap.add_argument("--seeds", default="1")
     ap.add_argument("--scale", default="1.0"); ap.add_argument("--keep", action="store_true")
     args = ap.parse_args()
-    muts = json.load(open(os.path.join(HOME, "sensitivity", "mutants.json")))
+    import glob
+    muts = []
+    for f in sorted(glob.glob(os.path.join(HOME, "sensitivity", "mutants*.json"))):
+        muts += json.load(open(f))
     if args.prop:
         muts = [m for m in muts if m["prop"] == args.prop]
     if args.id:
